@@ -1,7 +1,7 @@
 """Clause-schema extraction shared by the rule packs (DESIGN 3.E): the set of clauses a function posts, each as
 (enclosing loops with positional variable names, set of canonical literal terms)."""
 from .expr import LocalEnv, canon, show
-from .facts import AnalysisBroken, short, walk
+from .facts import AnalysisBroken, kids, short, walk
 from .tables import VecBuilder, clause_of_call
 
 CLAUSE_SINKS = ('smt::sat_core::new_clause',)
@@ -16,6 +16,15 @@ def call_ctx(f, call, env):
     for i, a in enumerate(anc):
         k = a.get('k')
         nxt = anc[i + 1] if i + 1 < len(anc) else call
+        if k == 'CompoundStmt' and loops:
+            # inside a loop body: an earlier `if (c) continue / break / return;` means the clause is only posted when c is false.
+            # Exits taken because an earlier clause failed (`if (!new_clause(..)) return ..`) are not conditions of the schema.
+            for sib in kids(a):
+                if sib is nxt:
+                    break
+                if sib.get('k') == 'IfStmt' and sib['slots'].get('else') is None and _always_exits(sib['slots'].get('then')) \
+                        and not any((m.get('callee_name') or '') in CLAUSE_SINKS or (m.get('callee_name') or '').endswith(('::propagate', '::new_clause')) for m in walk(sib['slots'].get('cond'))):
+                    loops.append(('if', canon(sib['slots'].get('cond'), env, subst=False), False))
         if k == 'CXXForRangeStmt':
             v = a['slots']['var']
             loops.append(('each', canon(a['slots']['range'], env, subst=False), tuple(v['bindings']) if v.get('bindings') else v.get('name')))
@@ -44,6 +53,18 @@ def call_ctx(f, call, env):
             # `if (!new_clause(..)) return` style guards between sibling statements never enclose the call body
             (loops if loops else when).append(entry)
     return loops, when
+
+
+def _always_exits(st):
+    if st is None:
+        return False
+    k = st.get('k')
+    if k in ('ContinueStmt', 'BreakStmt', 'ReturnStmt', 'CXXThrowExpr', 'GotoStmt'):
+        return True
+    if k == 'CompoundStmt':
+        ks = list(kids(st))
+        return bool(ks) and _always_exits(ks[-1])
+    return False
 
 
 def _contains(root, n):
@@ -122,17 +143,43 @@ def resort(t):
     return t
 
 
-def posted(fs, f, sinks=CLAUSE_SINKS, env=None):
-    env = env or LocalEnv(f)
-    vb = VecBuilder(f, env)
-    out = []
+def _mutated_locals(f):
+    """locals on which a non-const member function / mutating operator is applied: never aliases."""
+    m = set()
     for n in f.nodes():
-        if n.get('callee_name') in sinks:
-            items = clause_of_call(f, n, env, vb)
-            if items is None:
-                raise AnalysisBroken('%s: clause at %s is built in a way the schema extractor does not recognise' % (f.id, short(n.get('loc'))))
-            loops, when = call_ctx(f, n, env)
-            out.append((norm_clause(items, loops), when, n))
+        if n.get('k') == 'CXXMemberCallExpr':
+            me = n['c'][0]
+            base = (me.get('c') or [None])[0] if me.get('k') == 'MemberExpr' else None
+            if base is not None and base.get('k') == 'DeclRefExpr' and base.get('local') and not (n.get('callee') or '').endswith(' const'):
+                m.add(base.get('dloc'))
+        if n.get('k') == 'CXXOperatorCallExpr' and n.get('op') in ('+=', '-=', '*=', '/=', '=', '++', '--', '[]'):
+            c = n['c']
+            if len(c) > 1 and c[1].get('k') == 'DeclRefExpr' and c[1].get('local') and not (n.get('callee') or '').endswith(' const'):
+                m.add(c[1].get('dloc'))
+        if n.get('k') == 'UnaryOperator' and n.get('op') == '&':
+            c = n.get('c') or []
+            if c and c[0].get('k') == 'DeclRefExpr' and c[0].get('local'):
+                m.add(c[0].get('dloc'))
+    return m
+
+
+def posted(fs, f, sinks=CLAUSE_SINKS, env=None, alias=True):
+    env = env or LocalEnv(f)
+    saved = (getattr(env, 'alias', False), getattr(env, 'no_alias', ()))
+    if alias:
+        env.alias, env.no_alias = True, _mutated_locals(f)
+    try:
+        vb = VecBuilder(f, env)
+        out = []
+        for n in f.nodes():
+            if n.get('callee_name') in sinks:
+                items = clause_of_call(f, n, env, vb)
+                if items is None:
+                    raise AnalysisBroken('%s: clause at %s is built in a way the schema extractor does not recognise' % (f.id, short(n.get('loc'))))
+                loops, when = call_ctx(f, n, env)
+                out.append((norm_clause(items, loops), when, n))
+    finally:
+        env.alias, env.no_alias = saved
     return env, out
 
 
